@@ -312,6 +312,28 @@ def run_case(case, ctx):
             r3["sig"], r3["nt"] = res["sig"], res["nt"]
             return r3
         res["cls"] = list(res["cls"]) + ["history_resimplified"]
+    # derived input in which the same observation OBJECTS sit at several positions: a lap repeated by t + t, a loop
+    # closed by t + t.extract(0, 0) -- repeated positions by construction
+    npts = len(case["pts"])
+    if npts >= 2 and (npts + int(case["tol"] * 131)) % 4 == 0:
+        base_t = gen.make_track([(p[0], p[1], 0.5 * i - 1.0) for i, p in enumerate(case["pts"])], _times(npts))
+        if (npts + int(case["tol"] * 17)) % 2:
+            al = M.call(lambda: base_t + base_t)
+            pts_al = [list(p) for p in case["pts"]] * 2
+            how_al = "t + t"
+        else:
+            al = M.call(lambda: base_t + base_t.extract(0, 0))
+            pts_al = [list(p) for p in case["pts"]] + [list(case["pts"][0])]
+            how_al = "t + t.extract(0, 0)"
+        if not M.is_raised(al):
+            for mode5 in (case["mode"], other):
+                r5, _, _ = _judge({"pts": pts_al, "tol": case["tol"], "mode": mode5, "style": case.get("style"),
+                                   "_nested": 1}, ctx, al)
+                if r5["v"] == "violated":
+                    r5["witness"]["history"] = "input built as %s (the same observation objects at several positions)" % how_al
+                    r5["sig"], r5["nt"] = res["sig"], res["nt"]
+                    return r5
+            res["cls"] = list(res["cls"]) + ["aliased_input"]
     # portions and trimmed versions of an input track that has already been simplified (by both algorithms above)
     n = tr.size()
     if n >= 3:
@@ -422,13 +444,41 @@ def _judge(case, ctx, tr=None):
                         sig, nontrivial, cls)
     ctx.monitor("subsequence_with_ends")
     idx = []
-    for j in range(m):
+    aliased = len(index_of) < n          # the same observation sits at several positions (t + t, a closed loop by +)
+    if aliased:
+        # observations cannot be told apart by their timestamp: an order-preserving embedding of the output into
+        # the input is searched for, its first / last elements pinned on the input's first / last positions
+        key_in = [(before["t"][i], before["x"][i], before["y"][i], before["z"][i]) for i in range(n)]
+        key_out = []
+        for j in range(m):
+            pj = out.getObs(j).position
+            key_out.append((_ts(out.getObs(j)), pj.getX(), pj.getY(), pj.getZ()))
+        if m >= 1 and key_out[0] == key_in[0]:
+            idx.append(0)
+        elif m >= 1:
+            idx.append(-1)
+        ptr = 1
+        for j in range(1, m - 1):
+            while ptr < n - 1 and key_in[ptr] != key_out[j]:
+                ptr += 1
+            if ptr >= n - 1:
+                return violated(dict(base, what="the output is not a subsequence of the input in its original order "
+                                                "(a fix repeated, foreign or out of order)", kind="not_subsequence",
+                                     aliased_input=True), sig, nontrivial, cls)
+            idx.append(ptr)
+            ptr += 1
+        if m >= 2:
+            idx.append(n - 1 if key_out[-1] == key_in[-1] and (not idx or idx[-1] < n - 1) else -2)
+    for j in range(m if not aliased else 0):
         i = index_of.get(_ts(out.getObs(j)))
         if i is None:
             return violated(dict(base, what="the output holds a fix that is not an input observation",
                                  kind="foreign_fix", position=j, timestamp=_ts(out.getObs(j))), sig, nontrivial, cls)
         idx.append(i)
-    if any(idx[j] >= idx[j + 1] for j in range(m - 1)):
+    if aliased and idx and idx[-1] == -2:
+        return violated(dict(base, what="the last observation is missing from the output", kind="last_missing",
+                             kept_indices=idx, aliased_input=True), sig, nontrivial, cls)
+    if not aliased and any(idx[j] >= idx[j + 1] for j in range(m - 1)):
         return violated(dict(base, what="the output is not a subsequence of the input in its original order "
                                         "(a fix repeated or out of order)", kind="not_subsequence", kept_indices=idx),
                         sig, nontrivial, cls)
